@@ -165,7 +165,15 @@ def judge(c, ir, mr):
     if bl:
         return bl
     if not usable(c, ir, mr):
-        return None        # raising / unbuildable outputs are C05's subject
+        # raising / unbuildable outputs are C05's subject - except where the MODEL of the unchanged code builds a packet for this very case and tape:
+        # then the call lost the connection identity and every hint of the base where the code as verified keeps them
+        w = mr.get("witness") if isinstance(mr, dict) else None
+        m = mr.get("model") if isinstance(mr, dict) else None
+        if isinstance(w, dict) and w.get("match") == "EXACT" and isinstance(ir, dict) and "raised" in ir and isinstance(m, dict) and "ok" in m \
+                and isinstance(m["ok"].get("bytes"), dict) and "ok" in m["ok"]["bytes"] and m["ok"].get("unused_tape") == 0:
+            return {"kind": "impersonate_tcp raised where the verified model of the code returns a packet (identity and hints of the base are lost)",
+                    "why": "sig=%s raised=%s" % (c["sig"], ir["raised"]), "judged_by": "C14 statement + tie (model bytes under the same tape)"}
+        return None
     for f, k, ok, d in checks(c, ir):
         if not ok:
             return {"kind": "impersonate_tcp did not keep/replace the %s as the property demands (%s case)" % (f, k),
